@@ -282,6 +282,42 @@ def gen_c02(rng, tier):
         c.seq = seq
         c.model = len(seq) <= 6000
         out.append(c)
+    if tier == "thorough":
+        # KF-17: a code longer than 32 bits (17 fragments) needs millions of symbols
+        import heapq
+
+        def depth4(counts):
+            h = [(c, 0) for c in counts]
+            while (len(h) - 1) % 3 != 0:
+                h.append((0, 0))
+            heapq.heapify(h)
+            while len(h) > 1:
+                items = [heapq.heappop(h) for _ in range(4)]
+                heapq.heappush(h, (sum(i[0] for i in items), max(i[1] for i in items) + 1))
+            return h[0][1]
+        best = None
+        for f in [0.44, 0.45, 0.46, 0.48, 0.5]:
+            for levels in range(14, 19):
+                counts = [1, 1, 1, 1]
+                tot = 4
+                for _ in range(levels):
+                    a = max(1, int(f * tot))
+                    counts += [a, a, a]
+                    tot += 3 * a
+                if depth4(counts) >= 17 and (best is None or sum(counts) < sum(best)):
+                    best = counts
+        if best is not None and sum(best) < 12000000:
+            seq = []
+            for sym, cnt in enumerate(best):
+                seq += [sym] * cnt
+            c = Case("c02-kf17", model=False, tags=dict(kind="hqwt256", elem="u8", n=len(seq), alphabet=len(best), mix="code>32bit", cost=1))
+            c.add(C.new_line("hqwt256", "u8", "from", seq))
+            c.add("Q len")
+            c.add("Q get 0")
+            c.add("Q rank %d %d" % (len(best) - 1, len(seq)))
+            c.add("Q select 0 0")
+            c.seq = seq
+            out.append(c)
     for kind in HQ_KINDS:
         c = Case("c02-empty-%s" % kind, tags=dict(kind=kind, n=0, trivial=True))
         c.add("NEW %s u32 %s 0" % (kind, rng.choice(["new", "from", "collect"])))
